@@ -244,6 +244,54 @@ pub fn plan(tier: Tier) -> Plan {
             ));
         }
     }
+    // (c2) every assignment from {0,1,2} to every subset of U_abc2 with <= 6
+    // keys (thorough: <= 7) under evict-always caches: non-monotone values on
+    // prefix pairs give final outputs, and equal differences in different
+    // subtrees make cache cells look alike (stale-cell and wrong-merge bugs)
+    {
+        let u = u_abc2();
+        let maxk = if thorough { 7 } else { 6 };
+        let mut masks = vec![];
+        for_each_mask_upto(u.keys.len(), maxk, &mut |m| masks.push(m));
+        let chunk = (masks.len() + 255) / 256;
+        for part in masks.chunks(chunk.max(1)) {
+            let part = part.to_vec();
+            let u = u.clone();
+            p.units.push(unit(
+                "U_abc2-upto6-all-value-assignments-{0,1,2}-tiny-caches",
+                format!("abc2 value assignments, {} masks from {}", part.len(), part[0]),
+                move |st, rep| {
+                    for &mask in &part {
+                        if rep.stopped() {
+                            return;
+                        }
+                        let keys = select(&u.keys, mask);
+                        let n = keys.len();
+                        let total = 3usize.pow(n as u32);
+                        for code in 0..total {
+                            let mut c = code;
+                            let kvs: Vec<Kv> = keys
+                                .iter()
+                                .map(|k| {
+                                    let v = (c % 3) as u64;
+                                    c /= 3;
+                                    (k.clone(), v)
+                                })
+                                .collect();
+                            if n >= 2 {
+                                st.nontrivial += 1;
+                            }
+                            do_case(&kvs, Front::RawInsert, (1, 1), false, st, rep);
+                            if n <= 5 || thorough {
+                                do_case(&kvs, Front::RawInsert, (1, 2), false, st, rep);
+                                do_case(&kvs, Front::RawInsert, (2, 2), false, st, rep);
+                            }
+                        }
+                    }
+                },
+            ));
+        }
+    }
     // (d) fan-out families
     let fanouts: Vec<usize> =
         if thorough { (0..=256).collect() } else { FANOUTS_QUICK.to_vec() };
